@@ -134,7 +134,8 @@ private:
             BM = true_BM;
         }
 
-        Eigen::SimplicialLDLT<SparseMatrix> chol_MBM(M.transpose() * BM);
+        // The factors are used as those of M'BM itself, so no fill-reducing permutation is allowed
+        Eigen::SimplicialLDLT<SparseMatrix, Eigen::Lower, Eigen::NaturalOrdering<int>> chol_MBM(M.transpose() * BM);
 
         if (chol_MBM.info() != Eigen::Success)
         {
